@@ -159,6 +159,11 @@ func (vc *VC) oblige(kind string, tags []string, reach, goal, desc string, pos t
 		return nil
 	}
 	ob := &Oblig{Fn: vc.name, Kind: kind, Tags: tags, Reach: reach, Goal: goal, Desc: desc, Clause: cl}
+	if activeProp != "" && !relevant(ob, activeProp) {
+		// serves another property only: neither checked nor assumed in this run, so that a failure
+		// of it cannot mask (by being assumed downstream) an obligation of the property being checked
+		return nil
+	}
 	if pos.IsValid() && vc.w.Fset != nil {
 		p := vc.w.Fset.Position(pos)
 		ob.Pos = fmt.Sprintf("%s:%d", relRepo(p.Filename), p.Line)
@@ -166,18 +171,24 @@ func (vc *VC) oblige(kind string, tags []string, reach, goal, desc string, pos t
 	ob.ID = fmt.Sprintf("%s#%s.%d", vc.name, kind, vc.countKind(kind))
 	if kf := vc.findKF(kind, cl, desc); kf != nil && vc.topFrame != nil {
 		ctx := vc.topFrame.specCtx(vc.topFrame.entry, vc.topFrame.entry, nil, 0)
+		var used []string
+		ctx.usedCalls = &used
 		ex, err := ctx.evalBool(mustParse(kf.Except))
 		if err != nil {
 			vc.unsupportedf("known finding except %q: %v", kf.Except, err)
 		} else {
-			ob.Except = ex
+			// the region only exists on paths that actually made the calls it mentions
+			ob.Except = and(append(used, ex)...)
 			ob.KnownFinding = kf
 		}
 	}
 	ob.step = len(vc.steps)
 	vc.steps = append(vc.steps, &Step{Kind: sOblig, Ob: ob})
 	vc.obligs = append(vc.obligs, ob)
-	// after checking, the fact may be assumed downstream
+	// after checking, the fact may be assumed downstream (postconditions are checked independently)
+	if strings.HasPrefix(kind, "ensures") || kind == "lemma" {
+		return ob
+	}
 	if ob.Except != "" {
 		vc.assumeIf(reach, fmt.Sprintf("(or %s %s)", ob.Except, goal))
 	} else {
@@ -415,6 +426,9 @@ type Frame struct {
 	tupleParts map[ssa.Value][]Term
 	inDefer  int
 	stNow    *State
+	callRets map[string]Term // "<field>_<Method>_<k>" -> first result of that call (for known-finding regions)
+	callCnt  map[string]int
+	callReach map[string]string
 }
 
 func (vc *VC) newFrame(fn *ssa.Function, parent *Frame) *Frame {
